@@ -126,6 +126,10 @@ func checkSkipSeq(c SkipSeqCase, cv *cov) *evid.Violation {
 			}
 			rn += d
 		}
+		if len(c.Trailer) == 0 && sr.TermCalls > 0 {
+			v = evid.Failf("BufferReader.Skip: the stream ends with the last value, yet after all of its bytes had been delivered the skipper asked the source for more (%d further Read calls); on a connection that stays open this blocks (source plan %+v)", sr.TermCalls, sr.Plan)
+			return
+		}
 		tb, err := br.Next(len(c.Trailer))
 		if err != nil || !bytes.Equal(tb, c.Trailer) {
 			v = evid.Failf("BufferReader.Skip: after skipping, the next %d bytes are not the trailer (err=%v got=%s want=%s)", len(c.Trailer), err, hx(tb), hx(c.Trailer))
@@ -151,6 +155,10 @@ func checkSkipSeq(c SkipSeqCase, cv *cov) *evid.Violation {
 				split = true
 			}
 			rl += d
+		}
+		if len(c.Trailer) == 0 && sr.TermCalls > 0 {
+			v = evid.Failf("SkipDecoder.Next: the stream ends with the last value, yet after all of its bytes had been delivered the decoder asked the source for more (%d further Read calls) (source plan %+v)", sr.TermCalls, sr.Plan)
+			return
 		}
 		tb, err = br.Next(len(c.Trailer))
 		if err != nil || !bytes.Equal(tb, c.Trailer) {
@@ -179,6 +187,10 @@ func checkSkipSeq(c SkipSeqCase, cv *cov) *evid.Violation {
 			if sr.Calls-calls >= 2 {
 				split = true
 			}
+		}
+		if len(c.Trailer) == 0 && sr.TermCalls > 0 {
+			v = evid.Failf("ReaderSkipDecoder.Next: the stream ends with the last value, yet after all of its bytes had been delivered the decoder asked the io.Reader for more (%d further Read calls) (source plan %+v)", sr.TermCalls, sr.Plan)
+			return
 		}
 		rd.Release()
 		_ = total
